@@ -315,6 +315,35 @@ func generate(w *World, cs *Contracts, ms *ModSets, o runOpts) ([]*Obligation, [
 		}
 		rep := &FuncReport{Key: "unreachable " + ud.Name}
 		reps = append(reps, rep)
+		if ud.Frame {
+			for _, from := range ud.From {
+				ob := &Obligation{Name: ud.Name + ":frame(" + from + ")", Kind: "frame", Func: ud.Name, Goal: "true", Props: ud.Props,
+					Text:   "the write set of " + from + " (everything it may call included, re-derived from the SSA) contains none of: " + strings.Join(ud.To, " "),
+					Result: &SolveResult{Status: "unsat", Backend: "modset"}}
+				fn := w.lookupFunc(from)
+				if ms == nil || fn == nil || ms.eff[fn] == nil {
+					ob.Result = &SolveResult{Status: "sat", Backend: "modset", Output: "function not found or no mod-set: " + from}
+				} else {
+					var hit []string
+					for _, comp := range sortedKeys(ms.eff[fn].comps) {
+						for _, pat := range ud.To {
+							if comp == pat || (strings.HasSuffix(pat, "*") && strings.HasPrefix(comp, strings.TrimSuffix(pat, "*"))) {
+								hit = append(hit, comp+" (written by "+strings.Join(ms.writersReachable(fn, comp), ", ")+")")
+							}
+						}
+					}
+					if len(ms.eff[fn].comps) == 0 {
+						hit = append(hit, "empty write set: the analysis did not see the function body")
+					}
+					if len(hit) > 0 {
+						ob.Result = &SolveResult{Status: "sat", Backend: "modset", Output: "forbidden components in the write set: " + strings.Join(hit, "; ")}
+					}
+				}
+				obls = append(obls, ob)
+				rep.Obligations++
+			}
+			continue
+		}
 		if ud.Callers {
 			ob := &Obligation{Name: ud.Name + ":callers", Kind: "callgraph", Func: ud.Name, Goal: "true", Props: ud.Props,
 				Text:   "every static call site of " + ud.To[0] + " is inside one of: " + strings.Join(ud.From, ", "),
